@@ -12,6 +12,16 @@ pub struct Rp<'a> {
     pub case: &'a dyn Fn() -> Value,
     pub verbose: bool,
 }
+/// call-site fingerprint of a panic: in-repo file (path after the last "/repo/", so that scratch copies
+/// of the repository give the same fingerprint) + message with digits stripped
+pub fn panic_fp(p: &vcore::PanicInfo) -> String {
+    let f = match p.file.rfind("/repo/") {
+        Some(i) => &p.file[i + 6..],
+        None => p.file.as_str(),
+    };
+    format!("panic@{}:{}", f, vcore::strip_digits(&p.msg))
+}
+
 impl Rp<'_> {
     pub fn raw(&mut self, fp: String, msg: String) {
         if self.verbose {
@@ -27,6 +37,6 @@ impl Rp<'_> {
         self.raw(format!("wf:{}:{api}:{}", self.prop, self.kind), msg);
     }
     pub fn panic(&mut self, api: &str, p: &vcore::PanicInfo, ctx: String) {
-        self.raw(format!("{}:{api}:{}:{}", self.prop, p.fingerprint(), self.kind), format!("{api} panicked: {} at {}:{} ({ctx})", p.msg, p.file, p.line));
+        self.raw(format!("{}:{api}:{}:{}", self.prop, panic_fp(p), self.kind), format!("{api} panicked: {} at {}:{} ({ctx})", p.msg, p.file, p.line));
     }
 }
